@@ -790,11 +790,57 @@ Proof.
     apply Z.eqb_eq in E. exfalso. apply Hn. rewrite E. rewrite map_app. apply in_or_app. right. left. reflexivity.
 Qed.
 
-Lemma enum_round : forall s kind (isfirst : bool) pre d post,
+(** the enumeration functions in the form the proofs use: one cursor and one flag per kind, a restart on isfirst.
+    [getfannlen_eq]/[getfann_eq] show that the model -- which takes the choice of the static cell, the restart test,
+    the exhaustion test and the start ref from dfan.c (Gen_AN: FLEN_.., FGET_..) -- is exactly this; an edit of
+    dfan.c that makes a statement use the other kind's cursor or flag, or drops a restart, breaks these two lemmas. *)
+Definition fann_lookup (s : lstate) (kind : Z) (isfirst : bool) : option dd :=
+  if isfirst then hd_error (of_tag (fann_tag kind) (l_dds s)) else hfind (fann_tag kind) (l_nextf s kind) (l_dds s).
+Definition getfannlen_simple (s : lstate) (kind : Z) (isfirst : bool) : lstate * Z :=
+  let s0 := if isfirst then set_enum s kind (l_nextf s kind) false else s in
+  if negb isfirst && l_nomore s0 kind then (s0, FAILV) else
+  match fann_lookup s0 kind isfirst with
+  | None => (s0, FAILV)
+  | Some d => (set_lastref (set_enum s0 kind (d_ref d) (l_nomore s0 kind)) (d_ref d), zlen (d_data d))
+  end.
+Definition getfann_simple (s : lstate) (kind : Z) (isfirst : bool) : lstate * option (list Z) :=
+  let s0 := if isfirst then set_enum s kind (l_nextf s kind) false else s in
+  if negb isfirst && l_nomore s0 kind then (s0, None) else
+  match fann_lookup s0 kind isfirst with
+  | None => (s0, None)
+  | Some d =>
+      let s1 := match dd_after (d_ref d) (of_tag (fann_tag kind) (l_dds s0)) with
+                | None => set_enum s0 kind (l_nextf s0 kind) true
+                | Some d' => set_enum s0 kind (d_ref d') (l_nomore s0 kind)
+                end in
+      (set_lastref s1 (d_ref d), Some (d_data d))
+  end.
+
+Lemma getfannlen_eq : forall s kind isfirst, kind_ok kind -> (isfirst = false -> l_nextf s kind <> 0) ->
+  DFANIgetfannlen s kind isfirst = getfannlen_simple s kind isfirst.
+Proof.
+  intros s kind isfirst [-> | ->] Hn; destruct isfirst; unfold DFANIgetfannlen, getfannlen_simple, fann_lookup, fann_find, fann_tag;
+  cbv delta [FLEN_restart FLEN_restart_label FLEN_exhausted FLEN_type_label FLEN_start_label FLEN_start_desc FLEN_write_label sel truth b2z DFAN_LABEL DFAN_DESC] beta;
+  cbn [negb andb]; cbn; try reflexivity;
+  (specialize (Hn eq_refl); cbv delta [DFAN_LABEL DFAN_DESC] in Hn; rewrite (proj2 (Z.eqb_neq _ _) Hn);
+   match goal with |- context [l_nomore s ?k] => destruct (l_nomore s k) end; reflexivity).
+Qed.
+
+Lemma getfann_eq : forall s kind isfirst, kind_ok kind -> (isfirst = false -> l_nextf s kind <> 0) ->
+  DFANIgetfann s kind isfirst = getfann_simple s kind isfirst.
+Proof.
+  intros s kind isfirst [-> | ->] Hn; destruct isfirst; unfold DFANIgetfann, getfann_simple, fann_lookup, fann_find, fann_tag;
+  cbv delta [FGET_restart FGET_restart_label FGET_exhausted FGET_type_label FGET_start_label FGET_start_desc FGET_end_label FGET_next_label sel truth b2z DFAN_LABEL DFAN_DESC] beta;
+  cbn [negb andb]; cbn; try reflexivity;
+  (specialize (Hn eq_refl); cbv delta [DFAN_LABEL DFAN_DESC] in Hn; rewrite (proj2 (Z.eqb_neq _ _) Hn);
+   match goal with |- context [l_nomore s ?k] => destruct (l_nomore s k) end; reflexivity).
+Qed.
+
+Lemma enum_round_simple : forall s kind (isfirst : bool) pre d post,
   NoDup (map ddkey (l_dds s)) -> of_tag (fann_tag kind) (l_dds s) = pre ++ d :: post ->
   ((isfirst = true /\ pre = []) \/ (isfirst = false /\ l_nextf s kind = d_ref d /\ l_nomore s kind = false)) ->
-  exists s1 s2, DFANIgetfannlen s kind isfirst = (s1, zlen (d_data d)) /\ DFANIgetfann s1 kind isfirst = (s2, Some (d_data d)) /\
-    l_dds s2 = l_dds s /\
+  exists s1 s2, getfannlen_simple s kind isfirst = (s1, zlen (d_data d)) /\ getfann_simple s1 kind isfirst = (s2, Some (d_data d)) /\
+    l_dds s2 = l_dds s /\ l_nextf s1 kind = d_ref d /\
     match post with [] => l_nomore s2 kind = true | d' :: _ => l_nextf s2 kind = d_ref d' /\ l_nomore s2 kind = false end.
 Proof.
   intros s kind isfirst pre d post ND Hels Hc.
@@ -805,33 +851,59 @@ Proof.
   pose proof (dd_after_spec pre d post NDr) as Ha. rewrite <- Hels in Ha.
   destruct Hc as [[-> ->]|[-> [Hn Hm]]].
   - (* isfirst *)
-    simpl in Hels. rewrite Hels in Ha. unfold DFANIgetfannlen, DFANIgetfann, fann_lookup. cbn [negb andb l_dds set_enum set_lastref]. rewrite Hels. cbn [hd_error].
+    simpl in Hels. rewrite Hels in Ha. unfold getfannlen_simple, getfann_simple, fann_lookup. cbn [negb andb l_dds set_enum set_lastref]. rewrite Hels. cbn [hd_error].
     destruct post as [|d' post']; (eexists; eexists; split; [reflexivity|]; split;
       [cbn [negb andb l_dds l_nomore l_nextf set_enum set_lastref]; rewrite ?Hels; cbn [hd_error]; rewrite Ha; cbn [hd_error]; reflexivity|];
-      split; [reflexivity|]; cbn [l_nomore l_nextf set_enum set_lastref]; rewrite ?upd_same; auto).
-  - unfold DFANIgetfannlen, DFANIgetfann, fann_lookup. cbn [negb andb]. rewrite Hm, Hn, Hf. cbn [andb].
+      split; [reflexivity|]; split; [cbn [l_nextf set_enum set_lastref]; apply upd_same|]; cbn [l_nomore l_nextf set_enum set_lastref]; rewrite ?upd_same; auto).
+  - unfold getfannlen_simple, getfann_simple, fann_lookup. cbn [negb andb]. rewrite Hm, Hn, Hf. cbn [andb].
     destruct post as [|d' post']; (eexists; eexists; split; [reflexivity|]; split;
       [cbn [l_nomore l_nextf l_dds set_enum set_lastref]; rewrite !upd_same, Hf; cbn [andb]; rewrite Ha; cbn [hd_error]; reflexivity|];
-      split; [reflexivity|]; cbn [l_nomore l_nextf set_enum set_lastref]; rewrite ?upd_same; auto).
+      split; [reflexivity|]; split; [cbn [l_nextf set_enum set_lastref]; apply upd_same|]; cbn [l_nomore l_nextf set_enum set_lastref]; rewrite ?upd_same; auto).
 Qed.
 
-Lemma enum_from : forall post fuel s kind isfirst pre d,
+Lemma enum_round : forall s kind (isfirst : bool) pre d post, kind_ok kind -> (forall x, In x (l_dds s) -> 1 <= d_ref x) ->
+  NoDup (map ddkey (l_dds s)) -> of_tag (fann_tag kind) (l_dds s) = pre ++ d :: post ->
+  ((isfirst = true /\ pre = []) \/ (isfirst = false /\ l_nextf s kind = d_ref d /\ l_nomore s kind = false)) ->
+  exists s1 s2, DFANIgetfannlen s kind isfirst = (s1, zlen (d_data d)) /\ DFANIgetfann s1 kind isfirst = (s2, Some (d_data d)) /\
+    l_dds s2 = l_dds s /\
+    match post with [] => l_nomore s2 kind = true | d' :: _ => l_nextf s2 kind = d_ref d' /\ l_nomore s2 kind = false end.
+Proof.
+  intros s kind isfirst pre d post Hk Hrefs ND Hels Hc.
+  assert (Hd : 1 <= d_ref d).
+  { apply Hrefs. assert (X : In d (of_tag (fann_tag kind) (l_dds s))) by (rewrite Hels; apply in_or_app; right; left; reflexivity).
+    apply of_tag_In in X. tauto. }
+  destruct (enum_round_simple s kind isfirst pre d post ND Hels Hc) as [s1 [s2 [R1 [R2 [A [B C]]]]]].
+  exists s1, s2. split; [|split; [|split; assumption]].
+  - rewrite getfannlen_eq; [exact R1 | assumption|]. intros ->. destruct Hc as [[X _]|[_ [X _]]]; [discriminate | rewrite X; lia].
+  - rewrite getfann_eq; [exact R2 | assumption|]. intros _. rewrite B. lia.
+Qed.
+
+Lemma exhausted_fails : forall s kind, kind_ok kind -> l_nomore s kind = true -> DFANIgetfannlen s kind false = (s, FAILV).
+Proof.
+  intros s kind [-> | ->] Hm; unfold DFANIgetfannlen;
+  cbv delta [FLEN_restart FLEN_restart_label FLEN_exhausted FLEN_type_label FLEN_start_label FLEN_start_desc FLEN_write_label sel truth b2z DFAN_LABEL DFAN_DESC] beta;
+  cbn [negb andb]; cbn; cbv delta [DFAN_LABEL DFAN_DESC] in Hm; rewrite Hm; reflexivity.
+Qed.
+
+Lemma enum_from : forall post fuel s kind isfirst pre d, kind_ok kind -> (forall x, In x (l_dds s) -> 1 <= d_ref x) ->
   NoDup (map ddkey (l_dds s)) -> of_tag (fann_tag kind) (l_dds s) = pre ++ d :: post ->
   ((isfirst = true /\ pre = []) \/ (isfirst = false /\ l_nextf s kind = d_ref d /\ l_nomore s kind = false)) ->
   (length post < fuel)%nat ->
   exists s', enum_fann fuel s kind isfirst = (s', Some (map d_data (d :: post))) /\ l_dds s' = l_dds s /\ same_tables s s'.
 Proof.
-  induction post as [|d' post IH]; intros fuel s kind isfirst pre d ND Hels Hc Hf; (destruct fuel as [|f]; [simpl in Hf; lia|]).
-  - destruct (enum_round s kind isfirst pre d [] ND Hels Hc) as [s1 [s2 [R1 [R2 [Hd Hm]]]]].
+  induction post as [|d' post IH]; intros fuel s kind isfirst pre d Hk Hrefs ND Hels Hc Hf; (destruct fuel as [|f]; [simpl in Hf; lia|]).
+  - destruct (enum_round s kind isfirst pre d [] Hk Hrefs ND Hels Hc) as [s1 [s2 [R1 [R2 [Hd Hm]]]]].
     destruct (getfannlen_frame _ _ _ _ _ R1) as [F1 _]. destruct (getfann_frame _ _ _ _ _ R2) as [F2 _].
     cbn [enum_fann]. rewrite R1. replace (zlen (d_data d) <? 0) with false by (symmetry; apply Z.ltb_ge; unfold zlen; lia). rewrite R2.
     assert (E : enum_fann f s2 kind false = (s2, Some [])).
-    { destruct f; [reflexivity|]. cbn [enum_fann]. unfold DFANIgetfannlen. cbn [negb andb]. rewrite Hm. reflexivity. }
+    { destruct f; [reflexivity|]. cbn [enum_fann]. rewrite (exhausted_fails s2 kind Hk Hm). reflexivity. }
     rewrite E. exists s2. split; [reflexivity|]. split; [assumption | eapply same_tables_trans; eassumption].
-  - destruct (enum_round s kind isfirst pre d (d' :: post) ND Hels Hc) as [s1 [s2 [R1 [R2 [Hd [Hn Hm]]]]]].
+  - destruct (enum_round s kind isfirst pre d (d' :: post) Hk Hrefs ND Hels Hc) as [s1 [s2 [R1 [R2 [Hd [Hn Hm]]]]]].
     destruct (getfannlen_frame _ _ _ _ _ R1) as [F1 _]. destruct (getfann_frame _ _ _ _ _ R2) as [F2 _].
     cbn [enum_fann]. rewrite R1. replace (zlen (d_data d) <? 0) with false by (symmetry; apply Z.ltb_ge; unfold zlen; lia). rewrite R2.
     destruct (IH f s2 kind false (pre ++ [d]) d') as [s' [E [Hd' F3]]].
+    + assumption.
+    + rewrite Hd. assumption.
     + rewrite Hd. assumption.
     + rewrite Hd, Hels, <- app_assoc. reflexivity.
     + right. auto.
@@ -901,14 +973,14 @@ Proof.
   - (* no file annotation of this kind *)
     assert (HM' : exists s0, enum_fann 400 (h_lib h) kind true = (s0, Some []) /\ same_tables (h_lib h) s0 /\ l_dds s0 = l_dds (h_lib h) /\ l_dir s0 = l_dir (h_lib h)).
     { eexists. split; [|split; [|split]].
-      - cbn [enum_fann]. unfold DFANIgetfannlen, fann_lookup. cbn [negb andb l_dds set_enum]. fold tag. unfold els in Eels. rewrite Eels. cbn [hd_error]. reflexivity.
+      - cbn [enum_fann]. rewrite (getfannlen_eq (h_lib h) kind true Hk ltac:(discriminate)). unfold getfannlen_simple, fann_lookup. cbn [negb andb l_dds set_enum]. fold tag. unfold els in Eels. rewrite Eels. cbn [hd_error]. reflexivity.
       - repeat split. - reflexivity. - reflexivity. }
     destruct HM' as [s0 [E0 [F0 [D0 Dr0]]]]. rewrite E0 in HM. inversion HM; inversion HSp; subst h' mr a' sr. right. right.
     split; [apply Sim_transfer; assumption|]. split; [|split; assumption].
     left. unfold accepts. simpl in Hlen. split; [left; congruence|]. destruct (of_type t (anns a)); [constructor | unfold zlen in Hlen; simpl in Hlen; lia].
   - destruct (le_lt_dec 400 (length post)) as [Hcap|Hcap].
     + right. left. unfold enum_capped. change (400 <= zlen (of_type t (anns a))). rewrite <- Hlen. unfold zlen. rewrite map_length. simpl. lia.
-    + destruct (enum_from post 400 (h_lib h) kind true [] d (tf_nodup _ HT) Eels (or_introl (conj eq_refl eq_refl)) Hcap) as [s' [E [Hd' F']]].
+    + destruct (enum_from post 400 (h_lib h) kind true [] d Hk (fun x Hx => proj1 (inv_refs _ HI x Hx)) (tf_nodup _ HT) Eels (or_introl (conj eq_refl eq_refl)) Hcap) as [s' [E [Hd' F']]].
       rewrite E in HM. inversion HM; inversion HSp; subst h' mr a' sr. right. right.
       pose proof (enum_fann_dir _ _ _ _ _ _ E) as Hdir.
       split; [apply Sim_transfer; assumption|]. split; [|split; assumption].
@@ -953,14 +1025,14 @@ Proof.
   - (* no file annotation of this kind *)
     assert (HM' : exists s0, enum_fann 400 (h_lib h) kind true = (s0, Some []) /\ same_tables (h_lib h) s0 /\ l_dds s0 = l_dds (h_lib h) /\ l_dir s0 = l_dir (h_lib h)).
     { eexists. split; [|split; [|split]].
-      - cbn [enum_fann]. unfold DFANIgetfannlen, fann_lookup. cbn [negb andb l_dds set_enum]. fold tag. unfold els in Eels. rewrite Eels. cbn [hd_error]. reflexivity.
+      - cbn [enum_fann]. rewrite (getfannlen_eq (h_lib h) kind true Hk ltac:(discriminate)). unfold getfannlen_simple, fann_lookup. cbn [negb andb l_dds set_enum]. fold tag. unfold els in Eels. rewrite Eels. cbn [hd_error]. reflexivity.
       - repeat split. - reflexivity. - reflexivity. }
     destruct HM' as [s0 [E0 [F0 [D0 Dr0]]]]. rewrite E0 in HM. inversion HM; inversion HSp; subst h' mr a' sr. right. right.
     split; [split; [apply Sim_transfer; assumption | intros _; apply (DirOK_ext (h_lib h)); assumption]|].
     left. unfold accepts. simpl in Hlen. split; [left; congruence|]. destruct (of_type t (anns a)); [constructor | unfold zlen in Hlen; simpl in Hlen; lia].
   - destruct (le_lt_dec 400 (length post)) as [Hcap|Hcap].
     + right. left. unfold enum_capped. change (400 <= zlen (of_type t (anns a))). rewrite <- Hlen. unfold zlen. rewrite map_length. simpl. lia.
-    + destruct (enum_from post 400 (h_lib h) kind true [] d (tf_nodup _ HT) Eels (or_introl (conj eq_refl eq_refl)) Hcap) as [s' [E [Hd' F']]].
+    + destruct (enum_from post 400 (h_lib h) kind true [] d Hk (fun x Hx => proj1 (inv_refs _ HI x Hx)) (tf_nodup _ HT) Eels (or_introl (conj eq_refl eq_refl)) Hcap) as [s' [E [Hd' F']]].
       rewrite E in HM. inversion HM; inversion HSp; subst h' mr a' sr. right. right.
       pose proof (enum_fann_dir _ _ _ _ _ _ E) as Hdir.
       split; [split; [apply Sim_transfer; assumption | intros _; apply (DirOK_ext (h_lib h)); assumption]|].
@@ -1278,4 +1350,97 @@ Proof.
   - assumption.
   - left. reflexivity.
   - intros kind blocks _ Hb. discriminate.
+Qed.
+
+(* ================= 12. ANget_tagref names the annotation ANselect selects ====================================== *)
+Lemma get_tagref_agrees : forall l idx ty l1 g r, Good l -> tyok ty -> ANget_tagref l idx ty = (l1, Some (g, r)) ->
+  exists l2 id, ANselect l1 idx ty = (l2, id) /\ id <> FAILV /\ ANid2tagref l2 id = Some (g, r) /\ g = tag_of_type ty /\
+                (exists x, Repr l2 x /\ a_key x = (ty, r)).
+Proof.
+  intros l idx ty l1 g r HG Hty H. unfold ANget_tagref in H.
+  destruct (need_tree l ty) as [s1 rt] eqn:En.
+  destruct (need_tree_Good _ _ _ _ HG Hty En) as [HG1 [[t [-> Ht]] _]].
+  destruct (truth (ANget_tagref_index_ok idx (l_num s1 ty))) eqn:Eok; [|inversion H].
+  destruct (tindex (idx + 1) t) as [e|] eqn:Ei; [|inversion H].
+  destruct (zassoc ty ANget_tagref_tag_switch) as [g0|] eqn:Eg; inversion H; subst l1 g r; clear H.
+  assert (Hg0 : g0 = tag_of_type ty).
+  { destruct (switches_agree ty) as [_ [S2 _]]. rewrite S2 in Eg. apply atype2tag_iff in Eg. tauto. }
+  assert (Hin : exists k, In (k, e) t).
+  { unfold tindex in Ei. destruct (idx + 1 <? 1); [discriminate|]. destruct (nth_error t (Z.to_nat (idx + 1 - 1))) as [[k e0]|] eqn:En2; [|discriminate].
+    simpl in Ei. inversion Ei; subst e0. exists k. eapply nth_error_In; eassumption. }
+  destruct Hin as [k Hin].
+  assert (Hidx : truth (ANselect_index_ok idx (l_num s1 ty)) = true).
+  { unfold ANget_tagref_index_ok, ANselect_index_ok, truth in *. rewrite (tf_num _ (proj2 HG1) _ _ Ht) in *.
+    unfold tindex in Ei. destruct (idx + 1 <? 1) eqn:E1; [discriminate|]. apply Z.ltb_ge in E1.
+    destruct (nth_error t (Z.to_nat (idx + 1 - 1))) eqn:En2; [|discriminate].
+    assert (Hlt : (Z.to_nat (idx + 1 - 1) < length t)%nat) by (apply nth_error_Some; congruence).
+    replace (0 <=? idx) with true by (symmetry; apply Z.leb_le; lia).
+    replace (idx <? zlen t) with true by (symmetry; apply Z.ltb_lt; unfold zlen; lia). reflexivity. }
+  assert (Hsel : ANselect s1 idx ty = (s1, e_id e)).
+  { unfold ANselect, need_tree. destruct (l_num s1 ty =? -1) eqn:E.
+    - apply Z.eqb_eq in E. apply (inv_num _ (proj1 HG1)) in E. congruence.
+    - simpl. rewrite Ht, Hidx, Ei. reflexivity. }
+  destruct (entry_id s1 ty t k e (proj1 HG1) Ht Hin) as [B [_ Hpos]].
+  exists s1, (e_id e). split; [assumption|]. split; [unfold FAILV; lia|]. split; [|split; [assumption|]].
+  - rewrite B, Hg0. reflexivity.
+  - destruct (tree_repr _ _ _ HG1 Ht) as [P1 _]. destruct (P1 _ _ Hin) as [_ [x [X1 [X2 _]]]]. exists x. split; [assumption|]. rewrite X2. reflexivity.
+Qed.
+
+Definition ref2 (mr : mres) : Z := match mr with MOk (_ :: r :: _) _ => r | _ => 0 end.
+
+(** the harness' gettagref line against the specification's XGetTagref *)
+Lemma sim_gettagref : forall h a e ty idx h' mr x' sr, Sim h a -> tyok ty ->
+  m_gettagref h ty idx = (h', mr) -> xstep (mkx a e) (XGetTagref ty idx (ref2 mr)) = (x', sr) ->
+  Sim h' (x_st x') /\ accepts sr mr.
+Proof.
+  intros h a e ty idx h' mr x' sr HS Hty HM HSp. unfold m_gettagref in HM. unfold xstep in HSp. cbn [x_st] in HSp.
+  rewrite (sim_sess _ _ HS) in HSp. destruct (h_sess h) eqn:Es; cbn [negb] in HM, HSp.
+  2:{ inversion HM; inversion HSp; subst. split; [assumption | exact I]. }
+  rewrite (proj2 (valid_type_iff ty) Hty) in HSp. cbn [negb] in HSp.
+  pose proof (sim_good _ _ HS) as HG.
+  destruct (ANget_tagref (h_lib h) idx ty) as [l1 [[g r]|]] eqn:Eg.
+  - destruct (get_tagref_agrees _ _ _ _ _ _ HG Hty Eg) as [l2 [id [Hsel [Hid [Hidr [Hg [x [Rx Kx]]]]]]]].
+    rewrite Hsel, Hidr in HM. inversion HM; subst h' mr; clear HM. cbn [ref2] in HSp.
+    (* the state after: the tree of the type is loaded, nothing else changed *)
+    assert (HS2 : Sim (hlib h l2) a /\ (idx <? 0) || (zlen (of_type ty (anns a)) <=? idx) = false).
+    { unfold ANget_tagref in Eg. destruct (need_tree (h_lib h) ty) as [s1 rt] eqn:En.
+      destruct (need_tree_Good _ _ _ _ HG Hty En) as [HG1 [[t [-> Ht]] [_ [HR [Hids _]]]]].
+      destruct (truth (ANget_tagref_index_ok idx (l_num s1 ty))) eqn:Eok; [|inversion Eg].
+      destruct (tindex (idx + 1) t) as [e0|] eqn:Ei; [|inversion Eg]. destruct (zassoc ty ANget_tagref_tag_switch); inversion Eg; subst l1.
+      pose proof (sim_keep h a s1 HS Es HG1 HR Hids) as HS1.
+      assert (l2 = s1).
+      { unfold ANselect, need_tree in Hsel. destruct (l_num s1 ty =? -1) eqn:E.
+        - apply Z.eqb_eq in E. apply (inv_num _ (proj1 HG1)) in E. congruence.
+        - simpl in Hsel. rewrite Ht in Hsel. repeat dmatch Hsel; inversion Hsel; reflexivity. }
+      subst l2. split; [assumption|].
+      pose proof (tree_count (hlib h s1) a ty t HS1 Ht) as Hc. rewrite <- Hc.
+      unfold tindex in Ei. destruct (idx + 1 <? 1) eqn:E1; [discriminate|]. apply Z.ltb_ge in E1.
+      destruct (nth_error t (Z.to_nat (idx + 1 - 1))) eqn:En2; [|discriminate].
+      assert (Hlt : (Z.to_nat (idx + 1 - 1) < length t)%nat) by (apply nth_error_Some; congruence).
+      apply orb_false_iff. split; [apply Z.ltb_ge; lia | apply Z.leb_gt; unfold zlen; lia]. }
+    destruct HS2 as [HS2 Hrange]. rewrite Hrange in HSp.
+    assert (L : lookup (ty, r) (anns a) = Some x).
+    { rewrite <- Kx. apply In_lookup; [apply (sim_nodup _ _ HS) | apply (sim_repr _ _ HS2); assumption]. }
+    rewrite L in HSp. inversion HSp; subst x' sr. cbn [x_st]. split; [assumption|]. rewrite Hg. unfold accepts. split; [left; reflexivity | constructor].
+  - inversion HM; subst h' mr; clear HM. cbn [ref2] in HSp.
+    unfold ANget_tagref in Eg. destruct (need_tree (h_lib h) ty) as [s1 rt] eqn:En.
+    destruct (need_tree_Good _ _ _ _ HG Hty En) as [HG1 [[t [-> Ht]] [_ [HR [Hids _]]]]].
+    pose proof (sim_keep h a s1 HS Es HG1 HR Hids) as HS1.
+    pose proof (tree_count (hlib h s1) a ty t HS1 Ht) as Hc.
+    assert (Hout : (idx <? 0) || (zlen (of_type ty (anns a)) <=? idx) = true /\ l1 = s1).
+    { rewrite <- Hc. rewrite (tf_num _ (proj2 HG1) _ _ Ht) in Eg.
+      assert (Hidx : truth (ANget_tagref_index_ok idx (zlen t)) = (0 <=? idx) && (idx <=? zlen t)).
+      { unfold ANget_tagref_index_ok, truth. destruct (0 <=? idx); destruct (idx <=? zlen t); reflexivity. }
+      rewrite Hidx in Eg.
+      destruct (0 <=? idx) eqn:E0; destruct (idx <=? zlen t) eqn:E1; cbn [andb] in Eg; try (inversion Eg; subst; split; [|reflexivity]).
+      - unfold tindex in Eg. apply Z.leb_le in E0. apply Z.leb_le in E1.
+        replace (idx + 1 <? 1) with false in Eg by (symmetry; apply Z.ltb_ge; lia).
+        destruct (nth_error t (Z.to_nat (idx + 1 - 1))) as [[k e0]|] eqn:En2; cbn [option_map snd] in Eg.
+        + destruct (switches_agree ty) as [_ [S2 _]]. rewrite S2 in Eg.
+          rewrite (proj2 (atype2tag_iff ty _) (conj Hty eq_refl)) in Eg. inversion Eg.
+        + inversion Eg; subst. split; [|reflexivity]. apply nth_error_None in En2. apply orb_true_iff. right. apply Z.leb_le. unfold zlen in *. lia.
+      - apply Z.leb_gt in E1. apply orb_true_iff. right. apply Z.leb_le. lia.
+      - apply Z.leb_gt in E0. apply orb_true_iff. left. apply Z.ltb_lt. lia.
+      - apply Z.leb_gt in E0. apply orb_true_iff. left. apply Z.ltb_lt. lia. }
+    destruct Hout as [Hout ->]. rewrite Hout in HSp. inversion HSp; subst x' sr. cbn [x_st]. split; [assumption | exact I].
 Qed.
